@@ -310,6 +310,10 @@ def run(ctx, rep) -> None:
     rep.rule("C06.4", "the DDP / HSDP / HybridShard copies of the distribution code agree")
     rep.attempt("collective_uniformity", collective_uniformity, ctx, rep, "C06.1", {"DDPDistributor"})
     rep.attempt("buffer_protocol", buffer_protocol, ctx, rep, "C06.2", DDP)
+    from .common import utility_semantics
+
+    rep.rule("C06.6", "the pure utilities this property is built on compute what they document (concrete interpretation on small cases)")
+    rep.attempt("utility_semantics", utility_semantics, ctx, rep, "C06.6", ("get_dtype_size", "compress_list", "generate_pairwise_indices"))
     rep.rule("C06.5", "communication dtype table: each CommunicationDType member selects the torch dtype of its name (DEFAULT: float32); the state allocator forwards the requested size and dtype")
     rep.attempt("comm_dtype_table", comm_dtype_table, ctx, rep, "C06.5", DDP)
     rep.attempt("allocation_forwards_request", allocation_forwards_request, ctx, rep, "C06.5", DDP)
